@@ -109,6 +109,18 @@ impl Prop for C05 {
         ("define-from-failing-expr", "c := w[99]".to_string(), vec!["c".into()], "err"),
         ("define-tuple-partial-fail", "(c, a) := (1, 2)".to_string(), vec!["c".into(), "a".into()], "err"),
       ];
+      // the built-in `ans` names the previous result: assigning through it must not reach the variable that produced it
+      let ans_stmts: Vec<(&str, String)> = vec![("assign-ans", format!("ans = {}", vk.alt)), ("opassign-ans", "ans += 1".to_string()), ("ixassign-ans", "ans[1] = 9".to_string()), ("fieldassign-ans", "ans.a = 4".to_string())];
+      for (i, (iname, src)) in ans_stmts.iter().enumerate() {
+        for last in ["a", "b"] {
+          let mut stmts = pre.clone();
+          stmts.push(Stmt { src: last.to_string(), targets: vec![], expect: "ok-or-err", what: "reference".into() });
+          stmts.push(Stmt { src: src.clone(), targets: vec!["ans".into()], expect: "ok-or-err", what: format!("ans-{}", iname) });
+          stmts.push(Stmt { src: "v := 1".into(), targets: vec!["v".into()], expect: "ok-or-err", what: "define".into() });
+          let cell = format!("ans;class={};kind={};after={}", iname, vk.name, last);
+          out.push(Case { id: format!("{};n={}", cell, i), cell, input: json!({"stmts": stmts.iter().map(sj).collect::<Vec<_>>()}) });
+        }
+      }
       for (mname, mtext) in vk.muts.iter() {
         if *mname != "assign" { invalid.push(("mutate-immutable", mtext.replace('$', "a"), vec!["a".into()], "err")); }
       }
@@ -190,6 +202,31 @@ impl Prop for C05 {
         }
       }
     }
+    // (2e) every registered native function and the unary / postfix operators applied to VARIABLES: the call statement defines
+    // r and nothing else may change (a kernel that writes into its operand's storage shows here); afterwards the operand
+    // is mutated and r must keep its value
+    let mut calls: Vec<(String, Vec<String>)> = Vec::new();
+    for (id, src) in crate::genprog::stdlib_sweep() { if id.ends_with("form=v") || id.ends_with("form=vv") { let f = id.split(';').next().unwrap_or("").to_string(); if f.contains("assign") { continue; } calls.push((id, src.lines().map(|l| l.to_string()).collect())); } }
+    for (shape, lit) in [("mat", "[1 2; 3 4]"), ("wide", "[1 2 3; 4 5 6]"), ("tall", "[1 2; 3 4; 5 6]"), ("row", "[1 2 3]"), ("col", "[1; 2; 3]"), ("boolmat", "[true false; false true]"), ("u8mat", "[1u8 2u8; 3u8 4u8]")] {
+      for (on, op) in [("transpose", "x'"), ("negate", "-x"), ("not", "!x"), ("transpose-twice", "x''"), ("matmul-transpose", "x ** x'"), ("self-add", "x + x"), ("compare", "x == x")] {
+        calls.push((format!("fn=op/{};args={};form=v", on, shape), vec![format!("x := {}", lit), format!("r := {}", op)]));
+      }
+    }
+    for (i, (id, lines)) in calls.iter().enumerate() {
+      for m in ["", "~"] {
+        let mut stmts: Vec<Stmt> = Vec::new();
+        for l in lines.iter() {
+          let name = l.split(" := ").next().unwrap_or("").to_string();
+          if name == "r" { stmts.push(Stmt { src: l.clone(), targets: vec!["r".into()], expect: "ok-or-err", what: "call-with-variables".into() }); }
+          else { stmts.push(Stmt { src: format!("{}{}", m, l), targets: vec![name], expect: "ok-or-err", what: "define".into() }); }
+        }
+        if !m.is_empty() { stmts.push(Stmt { src: "x[1] = 9".into(), targets: vec!["x".into()], expect: "ok-or-err", what: "mutate-operand-after-call".into() }); stmts.push(Stmt { src: "x = x".into(), targets: vec!["x".into()], expect: "ok-or-err", what: "mutate-operand-after-call".into() }); }
+        stmts.push(Stmt { src: "v := 1".into(), targets: vec!["v".into()], expect: "ok-or-err", what: "define".into() });
+        let f = id.split(';').next().unwrap_or("");
+        let cell = format!("callisolation;{};mutable={}", f, !m.is_empty());
+        out.push(Case { id: format!("{};{};n={}", cell, id, i), cell, input: json!({"stmts": stmts.iter().map(sj).collect::<Vec<_>>()}) });
+      }
+    }
     // (3) random sessions (no alias-creating forms: composites only from constructs that are isolation-clean by themselves)
     let n = if tier == Tier::Quick { 600 } else { 8000 };
     for i in 0..n {
@@ -264,7 +301,7 @@ impl Prop for C05 {
             match snap.get(name) {
               None => return Outcome::violated("name-vanished", format!("{}: {} disappeared", ctx(), name)),
               Some(v) if v != val => {
-                let class = if what.starts_with("mutate-") && !last_alias.is_empty() { format!("bystander-changed:{}", last_alias) } else if what == "call-native-assign" { "bystander-changed:native-assign".to_string() } else { "bystander-changed".to_string() };
+                let class = if what.starts_with("mutate-") && !last_alias.is_empty() { format!("bystander-changed:{}", last_alias) } else if what == "call-native-assign" { "bystander-changed:native-assign".to_string() } else if what == "mutate-operand-after-call" { "bystander-changed:call-result-aliases-operand".to_string() } else { "bystander-changed".to_string() };
                 return Outcome::violated(&class, format!("{}: {} changed from {} to {}", ctx(), name, val.show(), v.show()));
               }
               _ => {}
